@@ -82,7 +82,9 @@ type intSrc struct {
 }
 
 type input struct {
-	Kind string `json:"kind"` // read | peers | electrum | nets
+	Kind string `json:"kind"` // read | peers | electrum | nets | hist
+
+	Hist *histIn `json:"hist,omitempty"` // kind hist (hist.go)
 
 	// kind read
 	Mode      string   `json:"mode,omitempty"` // execute | direct | nil | nonet
@@ -376,10 +378,14 @@ func typeOf(cfg *config.Config) int {
 }
 
 func runRead(in input) (o, o2 observed, flagPort int, reNet int) {
+	return runReadOn(&config.Config{}, in, true)
+}
+
+// runReadOn runs ReadConfig on the given (possibly already used) Config
+func runReadOn(cfg *config.Config, in input, again bool) (o, o2 observed, flagPort int, reNet int) {
 	viper.Reset() // ReadConfig works on viper's process-global instance: every case starts as a fresh process
 	setDefaults(in.Defaults)
 	defer setDefaults("asis")
-	cfg := &config.Config{}
 	path := ""
 	switch in.File {
 	case "good":
@@ -448,7 +454,7 @@ func runRead(in input) (o, o2 observed, flagPort int, reNet int) {
 	o = observe(cfg, errName, msg)
 	o.Refused = refused
 	o2 = o
-	if errName == "ENone" || errName == "EValidation" {
+	if again && (errName == "ENone" || errName == "EValidation") {
 		// resolving once more must not change anything
 		reNet = typeOf(cfg)
 		func() {
@@ -522,7 +528,9 @@ func flagsCoq(in input) string {
 	return fmt.Sprintf("(FSet %s %s %s)", has("mainnet"), has("testnet"), has("developer"))
 }
 
-func emitRead(in input, em *lib.Emitter, id string) {
+// normRead drops what cannot be given in the chosen mode
+func normRead(inp *input) {
+	in := *inp
 	if len(in.Contracts) != len(contracts) {
 		in.Contracts = append(in.Contracts, make([]strSrc, len(contracts)-len(in.Contracts))...)
 	}
@@ -545,21 +553,30 @@ func emitRead(in input, em *lib.Emitter, id string) {
 			in.Contracts[i].File = nil
 		}
 	}
-	o, o2, flagPort, reNet := runRead(in)
-	t := newTable()
-	setDefaults(in.Defaults)
-	env := envCoq(t, flagPort)
-	setDefaults("asis")
+	*inp = in
+}
+
+func readInputCoq(t *table, env string, in input, o observed) string {
 	var cs []string
 	for _, c := range in.Contracts {
 		cs = append(cs, t.src(c))
 	}
 	fst := map[string]string{"none": "FNone", "missing": "FMissing", "good": "FGood"}[in.File]
-	inCoq := fmt.Sprintf("{| i_env := %s; i_flags := %s; i_cobra := %s; i_file := %s; i_peers := %s; i_electrum := %s; i_contracts := %s; "+
+	return fmt.Sprintf("{| i_env := %s; i_flags := %s; i_cobra := %s; i_file := %s; i_peers := %s; i_electrum := %s; i_contracts := %s; "+
 		"i_ethurl := %s; i_keyfile := %s; i_storage := %s; i_port := %s; i_validate := %s; i_pick := %s |}",
 		env, flagsCoq(in), lib.Bool(in.Mode == "execute"), fst, t.lsrc(in.Peers), t.src(in.Electrum), lib.List(cs),
 		t.src(in.EthURL), t.src(in.KeyFile), t.src(in.Storage), isrc(in.Port), lib.Bool(in.Validate),
 		lib.Nat(pickOf(o.Electrum, o.Btc)))
+}
+
+func emitRead(in input, em *lib.Emitter, id string) {
+	normRead(&in)
+	o, o2, flagPort, reNet := runRead(in)
+	t := newTable()
+	setDefaults(in.Defaults)
+	env := envCoq(t, flagPort)
+	setDefaults("asis")
+	inCoq := readInputCoq(t, env, in, o)
 	coq := fmt.Sprintf("(CRead %s %s %s %s %s)", inCoq, o.coq(t), netNames[reNet], lib.Nat(pickOf(o2.Electrum, o2.Btc)), o2.coq(t))
 	reached := o.Err == "ENone" || o.Err == "EValidation"
 	em.Tally("read-" + in.Mode + "-" + o.Err)
@@ -668,6 +685,8 @@ func emitUnit(in input, em *lib.Emitter, id string) {
 func emit(in input, em *lib.Emitter, id string) {
 	if in.Kind == "read" {
 		emitRead(in, em, id)
+	} else if in.Kind == "hist" {
+		emitHist(in, em, id)
 	} else {
 		emitUnit(in, em, id)
 	}
@@ -813,6 +832,9 @@ func main() {
 		}
 	}
 
+	// ---- resolution histories on ONE Config (hist.go)
+	genHistories(rng.Fork("histories"), o, em)
+
 	// ---- exhaustive: {unset,file,flag,both} for peers x Electrum x contracts(all eight alike)
 	//      x network-flag subsets x {through cobra, directly}
 	re := rng.Fork("exhaustive")
@@ -933,7 +955,9 @@ func main() {
 		emit(in, em, fmt.Sprintf("rnd-%d", k))
 	}
 
-	em.Close("a read case is one ReadConfig call (fresh viper, fresh Config) on a generated TOML file and a flag set built by the real "+
+	em.Close("a hist case is 1-4 consecutive resolveNetworks / resolution-stage / ReadConfig steps on ONE Config object that may be "+
+		"pre-populated (all ordered pairs and triples of {none, mainnet, testnet, developer}), observed after every step; "+
+		"a read case is one ReadConfig call (fresh viper, fresh Config) on a generated TOML file and a flag set built by the real "+
 		"cmd.initGlobalFlags/initFlags, through cobra's Execute or directly, followed by one more run of the three resolve functions; "+
 		"exhaustive over {unset,file,flag,both} for peers x Electrum URL x contract addresses x network-flag subsets x call mode "+
 		"(quick: a seeded quarter of the multi-flag combinations and half of the direct calls with at most one flag), then random cross-field combinations; unit cases call "+
